@@ -1,14 +1,14 @@
 #!/bin/bash
-# second-wave seeded changes under /tmp/seed_out2 (Cxx_4, Cxx_5, ...): confirm and check each; properties in parallel, seeds of one property in turn
+# second-wave seeded changes under ${SEED_DIR:-/tmp/seed_out2} (Cxx_4, Cxx_5, ...): confirm and check each; properties in parallel, seeds of one property in turn
 # usage: tools/seedbatch2.sh [Cxx ...]
-mkdir -p /tmp/seed_out2/results
-props="$@"; [ -z "$props" ] && props=$(ls /tmp/seed_out2 | grep -E '^C[0-9]+_[0-9]+$' | cut -d_ -f1 | sort -u)
-one() { prop=$1
-  for d in /tmp/seed_out2/${prop}_[0-9]; do name=$(basename $d)
+mkdir -p ${SEED_DIR:-/tmp/seed_out2}/results
+props="$@"; [ -z "$props" ] && props=$(ls ${SEED_DIR:-/tmp/seed_out2} | grep -E '^C[0-9]+_[0-9]+$' | cut -d_ -f1 | sort -u)
+one() { prop=$1; SD=${SEED_DIR:-/tmp/seed_out2}
+  for d in ${SEED_DIR:-/tmp/seed_out2}/${prop}_[0-9]; do name=$(basename $d)
     [ -f $d/meta.json ] && [ -f $d/patch.diff ] && [ -f $d/demo.py ] || continue
-    [ -f /tmp/seed_out2/results/$name.json ] && continue
-    /verif/tools/seedcheck.py $d $prop --keep /verif/seeded/$name --notests > /tmp/seed_out2/results/$name.json 2>&1
-    echo "$name: $(grep -o '"detected": [a-z]*' /tmp/seed_out2/results/$name.json) applies=$(grep -o '"patch_applies": [a-z]*' /tmp/seed_out2/results/$name.json | cut -d' ' -f2) demo=$(grep -o '"demo_patched_exit": [0-9]*' /tmp/seed_out2/results/$name.json | cut -d' ' -f2) pristine=$(grep -o '"demo_pristine_exit": [0-9]*' /tmp/seed_out2/results/$name.json | cut -d' ' -f2)"
+    [ -f ${SEED_DIR:-/tmp/seed_out2}/results/$name.json ] && continue
+    /verif/tools/seedcheck.py $d $prop --keep /verif/seeded/$name --notests > ${SEED_DIR:-/tmp/seed_out2}/results/$name.json 2>&1
+    echo "$name: $(grep -o '"detected": [a-z]*' ${SEED_DIR:-/tmp/seed_out2}/results/$name.json) applies=$(grep -o '"patch_applies": [a-z]*' ${SEED_DIR:-/tmp/seed_out2}/results/$name.json | cut -d' ' -f2) demo=$(grep -o '"demo_patched_exit": [0-9]*' ${SEED_DIR:-/tmp/seed_out2}/results/$name.json | cut -d' ' -f2) pristine=$(grep -o '"demo_pristine_exit": [0-9]*' ${SEED_DIR:-/tmp/seed_out2}/results/$name.json | cut -d' ' -f2)"
   done; }
 export -f one
 echo $props | tr ' ' '\n' | xargs -P 5 -I{} bash -c 'one {}'
